@@ -325,6 +325,7 @@ STD_IMAGES = {
     "bytes": ["YWJj", "", "YQ==", "+/+/", "/w==", "A+B/"],  # (both characters where the URL-safe alphabet differs)
     "path": ["a/b", "/tmp/x", "x"],
     "ipv4": ["127.0.0.1", "10.0.0.255"],
+    "amount": [1, "a", 0, "12"],  # build.PRELUDE's Amount <-> Union[int, str]
     "ver": ["1.2", "0.10"],  # build.PRELUDE's Ver (two deserializers): only where cfg["std_multi"] asks for it, never modelled
 }
 
@@ -354,6 +355,8 @@ def _std_canon(v):
         return ["std", "path", str(v)]
     if cls is ipaddress.IPv4Address:
         return ["std", "ipv4", str(v)]
+    if cls.__name__ == "Amount" and hasattr(v, "v"):
+        return ["std", "amount", v.v]
     if cls.__name__ == "Ver" and hasattr(v, "a") and hasattr(v, "b"):
         return ["std", "ver", f"{v.a}.{v.b}"]
     return None
@@ -616,12 +619,22 @@ class Model:
             return ["std", "ver", f"{v[2]['a'][1]}.{v[2]['b'][1]}"], None
         if k == "std" and t["t"] == "ver":
             raise Unspecified("type with several deserializers")
+        if k == "std" and t["t"] == "amount":
+            if self.o.coerce:
+                raise Unspecified("std type under coercion")
+            if (d.__class__ is int or d.__class__ is str):
+                msgs = check_constraints(c, d)
+                return (None, Err(msgs)) if msgs else (["std", "amount", d], None)
+            return None, Err(fuzzy=True)  # both alternatives of Union[int, str] refuse it: messages unspecified
         if k == "std":
             # std_types.py conversions from str (float for Decimal): only the pool of known-valid images is modelled
             want = float if t["t"] == "decimal" else str
-            if self.o.coerce or c:
-                raise Unspecified("std type under coercion / constraints")
+            if self.o.coerce:
+                raise Unspecified("std type under coercion")
             if d.__class__ is want or (want is float and d.__class__ is int):
+                msgs = check_constraints(c, d)  # constraints given from outside apply to the source datum
+                if msgs:
+                    return None, Err(msgs)
                 if d in STD_IMAGES[t["t"]] and d.__class__ is not bool:
                     return ["std", t["t"], float(d) if want is float else d], None
                 raise Unspecified("std image outside the modelled pool")
@@ -1427,7 +1440,12 @@ def conforms(prog: dict, t: dict, v, c: Optional[dict] = None, depth: int = 0) -
     if k == "any":
         return tag != "undef"
     if k == "std":
-        return tag == "std" and v[1] == t["t"]
+        if tag != "std" or v[1] != t["t"]:
+            return False
+        try:
+            return not check_constraints(c, v[2])  # constraints bear on the JSON image
+        except Unspecified:
+            return False
     if k in ("opt", "union"):
         if _FIRST_MATCH[0]:
             # operational reading: union serialization serves the FIRST alternative whose class matches; the value
